@@ -89,6 +89,29 @@ def strata(tier):
                       [{"p": "prim", "v": "tw"}, {"p": "mol"}, {"p": "mol"}, {"p": "mol"}], [{"p": "mol"}, {"p": "mol"}, {"p": "mol"}],
                       [{"p": "prim", "v": "tw"}, {"p": "map"}, {"p": "list"}]):
             yield {"rules": [{"path": PC.mkpath(parts), "cond": {"c": "null"}, "cast": cast}], "doc": TWINS, "cls": "twin-keys"}
+    # the later rule's path has a part condition that looks at nodes an earlier rule casts (selection is in the document)
+    recs = [{"kind": "1", "n": "7"}, {"kind": "2", "n": "8"}, {"kind": "x", "n": "9"}, {"kind": 1, "n": "10"}]
+    is_int = PC.L("value", "is_instance", {"$type": "int"})
+    for first_cast in ([["str", "int"]], [["str", "bool"]]):
+        R1 = {"path": PC.mkpath([{"p": "list"}, {"p": "prim", "v": "kind"}]), "cond": {"c": "null"}, "cast": first_cast}
+        for vc in ({"c": "leaf", "kind": "value", "pre": None, "fn": "items_contain", "args": [], "kwargs": {"kind": "1"}},
+                   PC.L("value", "equal_to", {"kind": "1", "n": "7"}), PC.L("value", "not_equal_to", {"kind": 1, "n": "7"}),
+                   PC.L("value", "in_", [{"kind": "2", "n": "8"}, {"kind": "1", "n": "7"}])):
+            R2 = {"path": PC.mkpath([{"p": "list", "value": vc}, {"p": "prim", "v": "n"}]), "cond": is_int, "cast": [["str", "int"]]}
+            R3 = {"path": PC.mkpath([{"p": "mol", "value": vc}, {"p": "mol"}]), "cond": is_int, "cast": [["str", "int"]]}
+            for combo in ([R1, R2], [R2, R1], [R1, R3], [R1, R2, R3]):
+                yield {"rules": combo, "doc": recs, "cls": "selection-reads-cast-nodes"}
+                yield {"rules": combo, "doc": {"items": recs, "kind": "1"}, "cls": "selection-reads-cast-nodes"} if False else \
+                    {"rules": [dict(r, path=PC.mkpath([{"p": "prim", "v": "items"}] + r["path"]["parts"])) for r in combo],
+                     "doc": {"items": recs, "other": "1"}, "cls": "selection-reads-cast-nodes"}
+    flat = {"a": "1", "b": "x", "c": 2, "d": "true", "e": ["1"]}
+    for c1, c2 in ((["str", "int"], ["str", "bool"]), (["str", "bool"], ["str", "int"]), (["str", "int"], ["str", "int"])):
+        for vc in (PC.L("value", "is_instance", {"$type": "str"}), PC.L("value", "equal_to", {"$type": "str"}, pre="dtype"),
+                   PC.L("value", "in_", ["1", "true", 1])):
+            Ra = {"path": PC.mkpath([{"p": "mol"}]), "cond": {"c": "null"}, "cast": [c1]}
+            Rb = {"path": PC.mkpath([{"p": "map", "value": vc}]), "cond": {"c": "null"}, "cast": [c2]}
+            yield {"rules": [Ra, Rb], "doc": flat, "cls": "selection-reads-cast-nodes"}
+            yield {"rules": [Rb, Ra], "doc": flat, "cls": "selection-reads-cast-nodes"}
     for parts, _doc in PC.systematic_paths(tier):
         if _doc is PC.BIG_DOC:
             yield {"rules": [{"path": parts, "cond": {"c": "null"}, "cast": [["str", "int"]]},
